@@ -473,6 +473,7 @@ class Duration(timedelta):
 
     def __deepcopy__(self, _: dict[int, Self]) -> Self:
         return self.__class__(
+            weeks=self.weeks,
             days=self.remaining_days,
             seconds=self.remaining_seconds,
             microseconds=self.microseconds,
